@@ -31,7 +31,10 @@ REORD = ("reduce", "cogroup")
 
 
 BIGROWS = " ".join("%d:%d" % ((i * 37) % 301, i) for i in range(300))
-SRC_BIG = ["const 1 " + BIGROWS, "const 2 " + BIGROWS, "reader 1 128 " + " ".join("%d:%d" % (i % 150, i) for i in range(260))]
+SRC_BIG = ["const 1 " + BIGROWS, "const 2 " + BIGROWS, "reader 1 128 " + " ".join("%d:%d" % (i % 150, i) for i in range(260)),
+           # exactly the sort canary (256 rows) and canary + one spill run
+           "const 1 " + " ".join("%d:%d" % ((i * 11) % 256, i) for i in range(256)),
+           "const 1 " + " ".join("%d:%d" % ((i * 11) % 97, i) for i in range(384))]
 
 
 def exhaustive(depth, sources=None):
